@@ -90,6 +90,20 @@ def run_case(case, rec):
                     rec.cmp(1, f"{fam}|{'occurring' if nm in used else 'non-occurring'}")
         finally:
             AD._RECURSION_THRESHOLD = old
+    # a fresh tree differentiated with respect to *other objects of the same names* (a variable is identified by its name: a second
+    # declaration, a copy, `Variable("x[1]")`): the memo of the trees above must not be able to serve these requests
+    try:
+        import optyx
+
+        b3 = B.Builder(decls)
+        e3 = b3.S(node)
+        for nm in V:
+            try:
+                grads[("wrt-equal-named-object", nm)] = AD.gradient(e3, optyx.Variable(nm))
+            except Exception as ex:
+                bad("wrt-equal-named-object", "raises:" + type(ex).__name__, nm, ex=ex)
+    except Exception:
+        rec.events["wrt-by-name-build-failed"] += 1
     # the symbolic Jacobian row of the same expression (per-node jacobian_row rules where a node has one): also expressions
     # "returned by symbolic differentiation"
     try:
